@@ -289,6 +289,7 @@ def run(ctx):
     overflow_stream(ctx)
     rank_deficient_stream(ctx)
     grad_dtype_stream(ctx)
+    receiver_stream(ctx)
     for (case, registered, changed), mo in zip(pend, ctx.model.ask(lines)):
         if mo is None:
             continue
@@ -454,6 +455,69 @@ def grad_dtype_stream(ctx):
             continue
         ctx.case(str(case), nontrivial=True, sample=case)
         ctx.count('grad_dtype-' + variant)
+
+
+def receiver_stream(ctx):
+    """several ranks, MEM-OPT / HYBRID-OPT: on a rank that only RECEIVES a layer's preconditioned gradient the step still
+    touches nothing but the registered gradients, and those keep dtype, shape, device and contiguity — also when the
+    parameter dtype differs from inv_dtype (float64 / bfloat16 model with float32 inverses; C10-mutU allocated the receive
+    buffer in inv_dtype)"""
+    import simdist
+    from kfac.preconditioner import KFACPreconditioner
+    rng = ctx.rng
+    for trial in range(ctx.budget(6, 30)):
+        world = rng.choice([2, 3, 4])
+        frac = rng.choice([0.0] + ([0.5] if world == 4 else []))
+        pdt = rng.choice([torch.float64, torch.bfloat16, torch.float32])
+        idt = rng.choice([torch.float32, torch.float64]) if pdt is not torch.float32 else torch.float64
+        method = rng.choice(['eigen', 'inverse'])
+        bias = rng.random() < 0.7
+        seed = ctx.seed * 733 + trial
+        case = {'stream': 'receiver', 'world': world, 'grad_worker_fraction': frac, 'param_dtype': str(pdt), 'inv_dtype': str(idt),
+                'method': method, 'bias': bias, 'seed': seed}
+
+        def prog(rank, pdt=pdt, idt=idt, frac=frac, method=method, bias=bias, seed=seed):
+            torch.manual_seed(seed)
+            m = torch.nn.Sequential(torch.nn.Linear(4, 3, bias=bias), torch.nn.Tanh(), torch.nn.Linear(3, 2, bias=bias)).to(pdt)
+            extra = torch.nn.Parameter(torch.ones(2, dtype=pdt))
+            p = KFACPreconditioner(m, compute_method=method, grad_worker_fraction=frac, inv_dtype=idt, factor_dtype=torch.float32,
+                                   kl_clip=rng_kl, damping=0.05, lr=0.1)
+            out = []
+            for it in range(2):
+                for q in list(m.parameters()) + [extra]:
+                    q.grad = None
+                torch.manual_seed(seed + 17 * it + rank)
+                x = torch.randn(5, 4).to(pdt)
+                ((m(x).float() ** 2).sum() + (extra.float() ** 2).sum()).backward()
+                before = {n_: (q.grad.dtype, tuple(q.grad.shape), q.grad.device, q.data.clone()) for n_, q in m.named_parameters()}
+                eb = extra.grad.clone()
+                try:
+                    p.step()
+                except Exception as e:  # noqa: BLE001
+                    out.append(f'step raised {type(e).__name__}: {str(e)[:120]}')
+                    raise
+                for n_, q in m.named_parameters():
+                    g = q.grad
+                    if g is None or (g.dtype, tuple(g.shape), g.device) != before[n_][:3] or not g.is_contiguous():
+                        out.append(f'iteration {it}: gradient of {n_} {before[n_][:2]} -> {None if g is None else (g.dtype, tuple(g.shape), g.is_contiguous())}')
+                    if not torch.equal(q.data, before[n_][3]):
+                        out.append(f'iteration {it}: parameter {n_} changed')
+                if not torch.equal(extra.grad, eb):
+                    out.append(f'iteration {it}: gradient of an unregistered parameter changed')
+            return out
+        rng_kl = rng.choice([None, 0.001])
+        wd, res = simdist.run_world(world, prog, seed=seed, stickiness=rng.choice([0.0, 0.5, 0.9]))
+        if wd.stalled or wd.errors or wd.exceptions:
+            ctx.fail(f'step on {world} ranks with grad_worker_fraction={frac}, {pdt} parameters and {idt} inverses failed: stalled={wd.stalled} '
+                     f'errors={wd.errors[:1]} exceptions={dict(list(wd.exceptions.items())[:1])}', case, 'receiver-run')
+            continue
+        for rank in range(world):
+            if res[rank]:
+                ctx.fail(f'rank {rank} of {world} (grad_worker_fraction={frac}): {res[rank][0]}', case, 'receiver-frame')
+                break
+        ctx.evaluations += 1
+        ctx.case(('receiver', world, frac, str(pdt), str(idt), method, bias), nontrivial=True)
+        ctx.count('receiver-' + str(pdt).split('.')[-1])
 
 
 def search(ctx):
